@@ -242,7 +242,7 @@ func cmdCheck(args []string) int {
 	}
 
 	// replay new violations natively
-	replayDir := filepath.Join(root, "replays", prop)
+	replayDir := filepath.Join(outRoot(root), "replays", prop)
 	confirmed := 0
 	var samplesViol []interface{}
 	replayedLabel := map[string]string{}
@@ -320,7 +320,7 @@ func validateScenario(root, prop string, vs harnessSpec) (bool, string) {
 		return false, "native run: " + nerr
 	}
 	if eng != nat {
-		dir := filepath.Join(root, "replays", prop)
+		dir := filepath.Join(outRoot(root), "replays", prop)
 		os.MkdirAll(dir, 0o755)
 		os.WriteFile(filepath.Join(dir, vs.Func+".engine.txt"), []byte(eng), 0o644)
 		os.WriteFile(filepath.Join(dir, vs.Func+".native.txt"), []byte(nat), 0o644)
@@ -455,9 +455,9 @@ func writeEvidence(root, prop, tier string, seed int64, ps propSpec, results []*
 		"wall_s":      round1(wall.Seconds()),
 		"violations":  violations,
 	}
-	os.MkdirAll(filepath.Join(root, "evidence"), 0o755)
+	os.MkdirAll(filepath.Join(outRoot(root), "evidence"), 0o755)
 	b, _ := json.MarshalIndent(ev, "", " ")
-	os.WriteFile(filepath.Join(root, "evidence", prop+".json"), b, 0o644)
+	os.WriteFile(filepath.Join(outRoot(root), "evidence", prop+".json"), b, 0o644)
 }
 
 func round1(f float64) float64 { return float64(int(f*10+0.5)) / 10 }
